@@ -108,10 +108,14 @@ structure Variant where
   insideNode : Bool := false
   globalBox : Bool := false
   measBox : Bool := false
+  /-- fixes/C20-5: `layout()` starts from empty rows, so that it may be called again on the same
+  renderer object (the shipped `layout()` continues on the rows its previous call left) -/
+  resetLayout : Bool := false
 deriving DecidableEq, Repr
 
-/-- the tree with all four repairs (fixes/C20-1 … C20-4) -/
-def Variant.repaired : Variant := { spanFix := true, insideNode := true, globalBox := true, measBox := true }
+/-- the tree with all repairs (fixes/C20-1 … C20-5) -/
+def Variant.repaired : Variant :=
+  { spanFix := true, insideNode := true, globalBox := true, measBox := true, resetLayout := true }
 
 /-- A circuit element as the renderer sees it. -/
 inductive Op
@@ -437,6 +441,24 @@ def layoutSt (v : Variant) (sty : Style) (c : Circ) : Except Err St :=
     | .error e => .error e
     | .ok st => .ok (finalPad sty c.N st)
 
+/-- **a renderer object used twice**: `r = TextRenderer(qc); r.layout(); …; r.layout()` — the state when
+the second `layout()` prints.  `c0` is the circuit at the first call, `c` the circuit (same object,
+its gate list and the fields of its gates possibly changed in between) at the second one.  The
+contract is "the picture of `c`, as drawn by a fresh renderer"; the tree with the repair
+`resetLayout` meets it, the shipped one writes the labels and the elements again behind the rows
+of the first call (and blanks their top and bottom rows up to the new label). -/
+def relayoutSt (v : Variant) (sty : Style) (c0 c : Circ) : Except Err St :=
+  match layoutSt v sty c0 with
+  | .error e => .error e
+  | .ok prev =>
+    let start := if v.resetLayout then initSt c.N c.C else prev
+    match addWireLabels sty c.N c.C start with
+    | .error e => .error e
+    | .ok st0 =>
+      match steps v sty c.N c.C st0 c.ops with
+      | .error e => .error e
+      | .ok st => .ok (finalPad sty c.N st)
+
 def wireRows (st : St) (i : Nat) : List Str :=
   match st[i]? with
   | some w => [w.top, w.mid, w.bot]
@@ -452,6 +474,12 @@ def printRows (N C : Nat) (st : St) : List Str := (printOrder N C).flatMap (wire
 /-- `QubitCircuit.draw("text", **style)`: the printed lines, or the exception -/
 def render (v : Variant) (sty : Style) (c : Circ) : Except Err (List Str) :=
   match layoutSt v sty c with
+  | .error e => .error e
+  | .ok st => .ok (printRows c.N c.C st)
+
+/-- the lines the second `r.layout()` of one renderer object prints -/
+def render2 (v : Variant) (sty : Style) (c0 c : Circ) : Except Err (List Str) :=
+  match relayoutSt v sty c0 c with
   | .error e => .error e
   | .ok st => .ok (printRows c.N c.C st)
 
